@@ -116,10 +116,10 @@ func runC05(c *core.Ctx) {
 	allowed := map[string]bool{"branchNode.resolveCollapsed": true, "extensionNode.resolveCollapsed": true, "patriciaMerkleTrie.recreateFromDb": true}
 	nGiven := 0
 	for _, fn := range c.P.FuncsOfPkg(pkg) {
-		for _, in := range core.CallsIn(fn, func(in ssa.Instruction, cc *ssa.CallCommon) bool { return core.CallDesc(cc).Name == "setGivenHash" }) {
+		for k, in := range core.CallsIn(fn, func(in ssa.Instruction, cc *ssa.CallCommon) bool { return core.CallDesc(cc).Name == "setGivenHash" }) {
 			nGiven++
 			cc := core.CallOf(in)
-			name := fmt.Sprintf("%s/setGivenHash#%d", fname(fn), nGiven)
+			name := fmt.Sprintf("%s/setGivenHash#%d", fname(fn), k)
 			c.Analysed(core.QualName(fn))
 			if !allowed[fname(fn)] {
 				c.Fail("C05/given-hash-is-the-db-key", name, in.Pos(), "setGivenHash (which trusts its argument) is called from a function outside the reviewed set {resolveCollapsed, recreateFromDb}")
@@ -152,7 +152,7 @@ func runC05(c *core.Ctx) {
 			return d.Name == "Put" && (d.Recv == "DBWriteCacher" || d.Recv == "SnapshotDbHandler" || d.Recv == "Persister")
 		}) {
 			nPut++
-			c.Check(fname(fn) == "encodeNodeAndCommitToDB", "C05/persist-only-under-content-hash", fmt.Sprintf("%s/Put#%d", fname(fn), nPut), in.Pos(),
+			c.Check(fname(fn) == "encodeNodeAndCommitToDB", "C05/persist-only-under-content-hash", fmt.Sprintf("%s/Put", fname(fn)), in.Pos(),
 				"the only trie-DB write in the package is encodeNodeAndCommitToDB", "a trie DB is written outside encodeNodeAndCommitToDB: the key is not tied to the node's content hash")
 		}
 	}
